@@ -61,26 +61,40 @@ def verify(out, wt, name):
     return 0
 
 
-def run(name, props):
+def run(name, props, scratch=True):
+    """scratch=True: apply the patch in a scratch worktree of /repo (BFL_REPO/BFL_BUILD_DIR point the
+    checks at it) so that other work running against /repo is not disturbed; scratch=False: apply to
+    /repo itself and undo afterwards (what the final procedure prescribes; same checks, same code)."""
     dst = os.path.join(V, "seeded", name)
     meta = json.load(open(os.path.join(dst, "meta.json")))
     props = props or [meta["property"]]
-    rc, o = sh("git -C /repo status --porcelain --untracked-files=no")
-    if o.strip(): print("/repo not clean", o); return 1
-    rc, o = sh("git -C /repo apply %s/patch.diff" % dst)
-    if rc: print("patch does not apply to /repo", o); return 1
+    env = ""
+    if scratch:
+        wt = "/tmp/seedrun/repo"
+        if not os.path.exists(wt):
+            os.makedirs("/tmp/seedrun", exist_ok=True)
+            sh("git -C /repo worktree add --detach %s HEAD" % wt)
+        sh("git checkout -q --detach %s && git checkout -- . " % subprocess.check_output("git -C /repo rev-parse HEAD", shell=True, text=True).strip(), cwd=wt)
+        target = wt
+        env = "BFL_REPO=%s BFL_BUILD_DIR=/tmp/seedrun/build " % wt
+    else:
+        target = "/repo"
+        rc, o = sh("git -C /repo status --porcelain --untracked-files=no")
+        if o.strip(): print("/repo not clean", o); return 1
+    rc, o = sh("git -C %s apply %s/patch.diff" % (target, dst))
+    if rc: print("patch does not apply", o); return 1
     results = {}
     try:
         for p in props:
             t = time.time()
-            rc, o = sh("python3 check.py %s --tier quick" % p, cwd=V, timeout=7200)
+            rc, o = sh(env + "python3 check.py %s --tier quick" % p, cwd=V, timeout=7200)
             lines = [l for l in o.split("\n") if l.startswith(("VIOLATION", "KNOWN", "PASS", "FAIL", "#"))]
             results[p] = {"exit": rc, "detected": rc == 1 and any(l.startswith("VIOLATION") for l in lines),
                           "with_failing_input": any(l.startswith("VIOLATION") and "no-failing-input-found" not in l for l in lines),
-                          "lines": lines[:6], "wall_s": round(time.time() - t)}
+                          "lines": lines[:6], "wall_s": round(time.time() - t), "applied_to": target}
             print(p, json.dumps(results[p])[:700])
     finally:
-        sh("git -C /repo checkout -- .")
+        sh("git -C %s checkout -- ." % target)
     meta.setdefault("checks_run", {}).update(results)
     json.dump(meta, open(os.path.join(dst, "meta.json"), "w"), indent=1)
     return 0
@@ -90,4 +104,5 @@ if __name__ == "__main__":
     if sys.argv[1] == "verify":
         sys.exit(verify(sys.argv[2], sys.argv[3], sys.argv[4]))
     if sys.argv[1] == "run":
-        sys.exit(run(sys.argv[2], sys.argv[3:]))
+        args = [a for a in sys.argv[2:] if a != "--inplace"]
+        sys.exit(run(args[0], args[1:], scratch="--inplace" not in sys.argv))
